@@ -55,6 +55,9 @@ pub struct CfbChoices {
     /// stream chains (regular and mini) own 1-2 sectors more than their length needs
     /// (pre-allocation by the writer; readers must stop at the stream length)
     pub overalloc: bool,
+    /// version 3 only: the most significant 32 bits of the stream sizes are not initialised
+    /// (older writers; [MS-CFB] 2.6.3 recommends that readers ignore them)
+    pub size_high_garbage: bool,
 }
 
 impl Default for CfbChoices {
@@ -69,6 +72,7 @@ impl Default for CfbChoices {
             dir_holes: false,
             difat_backwards: false,
             overalloc: false,
+            size_high_garbage: false,
         }
     }
 }
@@ -85,6 +89,7 @@ impl CfbChoices {
             dir_holes: rng.chance(1, 3),
             difat_backwards: rng.bool(),
             overalloc: rng.chance(1, 4),
+            size_high_garbage: rng.chance(1, 4),
         }
     }
     pub fn features(&self) -> Vec<String> {
@@ -105,6 +110,9 @@ impl CfbChoices {
         }
         if self.overalloc {
             f.push("overallocated_chains".into());
+        }
+        if self.size_high_garbage && !self.v4 {
+            f.push("v3_size_high_dword_garbage".into());
         }
         f
     }
@@ -401,7 +409,12 @@ pub fn build(entries: &[Entry], ch: &CfbChoices, rng: &mut Rng) -> Built {
             Some(i) => {
                 let e = &entries[i];
                 match &e.data {
-                    Some(d) => write_entry(b, &e.name, 2, right_sibling(i), NOSTREAM, stream_start[i], d.len() as u64),
+                    Some(d) => {
+                        write_entry(b, &e.name, 2, right_sibling(i), NOSTREAM, stream_start[i], d.len() as u64);
+                        if ch.size_high_garbage && !ch.v4 {
+                            b[124..128].copy_from_slice(&[0xCD, 0xCD, 0xCD, 0xCD]);
+                        }
+                    }
                     None => write_entry(b, &e.name, 1, right_sibling(i), first_child(Some(i)), 0, 0),
                 }
             }
